@@ -1334,8 +1334,16 @@ func gen(r *hxlib.Run, emit func(hxlib.Case)) {
 		}
 		emit(hxlib.Case{Lines: lines, Kind: sc.Class, NonTrivial: len(sc.Tasks) >= 2 && (grants > 0 || sc.Class == "expiry")})
 		extraMu.Lock()
-		extra["counter_below_zero_observed"] = toInt(extra["counter_below_zero_observed"]) + rec.dips
-		extra["forced_delays"] = toInt(extra["forced_delays"]) + rec.forcedHits
+		dips, hits := 0, 0
+		if rec.hlock() {
+			dips = rec.dips
+			rec.mu.Unlock()
+		}
+		rec.fmu.Lock()
+		hits = rec.forcedHits
+		rec.fmu.Unlock()
+		extra["counter_below_zero_observed"] = toInt(extra["counter_below_zero_observed"]) + dips
+		extra["forced_delays"] = toInt(extra["forced_delays"]) + hits
 		extraMu.Unlock()
 	}
 	if os.Getenv("HX_C15_ONLY") == "flood" { // debugging aid
@@ -1349,11 +1357,11 @@ func gen(r *hxlib.Run, emit func(hxlib.Case)) {
 			{Prio: 1, Var: 2, Mod: 1, RunUs: 3000, Dones: 1}, {Prio: 0, Var: 2, Mod: 2, RunUs: 3000, Dones: 3, Conc: true},
 			{Prio: 1, Var: 2, Mod: 1, RunUs: 3000, Dones: 1}, {Prio: 0, Var: 2, Mod: 0, RunUs: 3000, Dones: 1}},
 		Subs: [][]int{{0}, {1}, {2}, {3}, {4}, {5}}})
-	deadline := time.Now().Add(time.Duration(r.Budget(70, 600)) * time.Second)
-	nScn := r.Budget(700, 8000)
-	floods := r.Budget(1, 4)
-	shutdowns := r.Budget(25, 200)
-	nilstarts := r.Budget(6, 40)
+	deadline := time.Now().Add(time.Duration(r.Budget(75, 720)) * time.Second)
+	nScn := r.Budget(1800, 12000)
+	floods := r.Budget(2, 6)
+	shutdowns := r.Budget(40, 250)
+	nilstarts := r.Budget(8, 40)
 	for i := 0; i < nScn && time.Now().Before(deadline) && !stop; i++ {
 		class := "noexpiry"
 		switch x := r.Rng.Intn(100); {
